@@ -21,7 +21,7 @@ def me1_received(ctx, rep):
         t = n.body.blocks[n.bb]["term"]
         if t["k"] == "switch" and t["discr"]["k"] in ("copy", "move"):
             dt = ctx.prog.bp(n.body).operand_term(t["discr"], n.bb, "term")
-            if dt[0] == "discr" and dt[1][0] == "vfield" and dt[1][2] == "Some" and dt[1][1][0] == "call" and not k[0]:
+            if dt[0] == "discr" and dt[1][0] == "vfield" and dt[1][2] == "Some" and dt[1][1][0] == "call" and n.body.path == ctx.consumer_body().path:
                 cb = ctx.prog.by_key.get(dt[1][1][2])
                 if cb is not None and any(cb.path == w.path for w in ctx.A.recv_wrappers):
                     S.append(k)
